@@ -145,7 +145,8 @@ pub fn replay_int(case: &Value) -> (crate::erralg::Outcome, String, bool) {
 fn item_texts(it: &Value) -> Vec<String> {
     match it["form"].as_str().unwrap() {
         "word" => vec!["name".into()],
-        "list" => vec!["name(a)".into(), "name()".into()],
+        // lists of every arity, also a single literal of each kind (a list is a list, whatever it holds)
+        "list" => ["name(a)", "name()", "name(5)", "name(\"x\")", "name(\"17\")", "name(true)", "name('c')", "name(1.5)", "name(5, 6)", "name(a = 1)"].iter().map(|s| s.to_string()).collect(),
         _ => {
             let vals: Vec<&str> = match (it["kind"].as_str().unwrap(), it["cls"].as_str().unwrap()) {
                 ("bool", _) => vec!["true", "false"],
